@@ -162,6 +162,8 @@ fn run_stdin(arena: &Arena) -> ExitCode {
             }
         }
     }
+    // The program may call `read_line`, which takes the same lock.
+    drop(reader);
 
     let src = match std::str::from_utf8(&buf) {
         Ok(_) => unsafe { ArenaString::from_utf8_unchecked(buf) },
